@@ -125,6 +125,10 @@ inductive Step where
 structure Reader where
   data : Bytes
   script : List Step
+  /-- bytes at the head of `data` that a BOM peeker in front of the reader has already pulled out
+  of it (`encoding_rs_io::BomPeeker`, always in front of `search_reader`): they are handed out
+  first, limited only by the caller's buffer. `0` for a bare reader. -/
+  bom : Nat := 0
   deriving Repr, Inhabited
 
 inductive ReadRes where
@@ -134,6 +138,10 @@ inductive ReadRes where
 
 /-- One `read(&mut free_buffer)` call with `free = free_buffer.len()`. -/
 def Reader.read (r : Reader) (free : Nat) : ReadRes × Reader :=
+  if r.bom > 0 then
+    let k := min free (min r.bom r.data.length)
+    (.bytes (r.data.take k), { r with data := r.data.drop k, bom := r.bom - k })
+  else
   match r.script with
   | [] =>
     let k := min free r.data.length
@@ -141,7 +149,31 @@ def Reader.read (r : Reader) (free : Nat) : ReadRes × Reader :=
   | .intr :: rest => (.interrupted, { r with script := rest })
   | .ret n :: rest =>
     let k := min n (min free r.data.length)
-    (.bytes (r.data.take k), { data := r.data.drop k, script := rest })
+    (.bytes (r.data.take k), { data := r.data.drop k, script := rest, bom := 0 })
+
+/-- `encoding_rs_io::util::read_full` on a 3-byte buffer, run by `BomPeeker::peek_bom` at the first
+`read`: how many bytes it gets (`need` still wanted, `rem` bytes left in the reader) and what is left
+of the script (interrupted reads are retried, a 0-byte read ends it). -/
+def readFull : Nat → Nat → Nat → List Step → Nat × List Step
+  | 0, _, _, sc => (0, sc)
+  | fuel + 1, need, rem, sc =>
+    if need = 0 then (0, sc)
+    else
+      match sc with
+      | [] => (min need rem, [])
+      | .intr :: rest => readFull fuel need rem rest
+      | .ret n :: rest =>
+        let k := min n (min need rem)
+        if k = 0 then (0, rest)
+        else
+          let (g, sc') := readFull fuel (need - k) (rem - k) rest
+          (k + g, sc')
+
+/-- The reader as `search_reader` sees it through the pass-through decoder (no BOM, no encoding):
+the first up to 3 bytes were pulled out by the peeker. -/
+def Reader.withBomPeek (r : Reader) : Reader :=
+  let (got, sc) := readFull (r.script.length + 4) 3 r.data.length r.script
+  { data := r.data, script := sc, bom := got }
 
 /-! ### fill -/
 
@@ -223,7 +255,7 @@ def run : LB → Reader → List Op → LB × Reader
 
 /-- The buffer state reached by an op sequence from a fresh buffer on the reader `(inp, script)`. -/
 def reach (cfg : Config) (inp : Bytes) (script : List Step) (ops : List Op) : LB :=
-  (run (LB.init cfg) ⟨inp, script⟩ ops).1
+  (run (LB.init cfg) ⟨inp, script, 0⟩ ops).1
 
 /-! ### what the caller is promised to see (spec side) -/
 
